@@ -95,7 +95,18 @@ func dev(names []string) {
 		for _, u := range r.Unsupported {
 			fmt.Println("   UNSUPPORTED:", u)
 		}
-		results := vc.SolveAll(r.Obligations, dir, 10, 12)
+		obs := r.Obligations
+		if os.Getenv("GOVC_THOROUGH") == "" {
+			obs = nil
+			for _, o := range r.Obligations {
+				if o.ThoroughOnly {
+					fmt.Printf("   skip (thorough tier only; GOVC_THOROUGH=1 to run)  %s\n", o.Name)
+					continue
+				}
+				obs = append(obs, o)
+			}
+		}
+		results := vc.SolveAll(obs, dir, 10, 12)
 		for _, res := range results {
 			ok := res.Status == "unsat"
 			if res.Ob.MustFail {
